@@ -11,6 +11,7 @@ from pydantic import (
     Field,
     SerializerFunctionWrapHandler,
     TypeAdapter,
+    ValidationError,
     field_serializer,
     model_serializer,
 )
@@ -291,7 +292,16 @@ class Wrapper:
             raise InvalidRequestError(
                 data="'params', if given, must be an array or an object",
             )
-        return Request.model_validate(request_dict)
+        try:
+            return Request.model_validate(request_dict)
+        except ValidationError as exc:
+            # E.g. an unknown member, or an "id" that is an array or an object.
+            raise InvalidRequestError(
+                data=[
+                    f"{'.'.join(str(loc) for loc in error['loc'])}: {error['msg']}"
+                    for error in exc.errors()
+                ],
+            ) from exc
 
     def _get_params(self, request: Request) -> tuple[list[Any], dict[Any, Any]]:
         match request.params:
